@@ -70,6 +70,48 @@ CHECKS = {
              "required not to fail and to agree with hashing",
         ref="DESIGN.md §4 C08",
     ),
+
+    "C06": dict(
+        technique="runtime monitoring: recorders on sub_mesh_pattern / mesh-in-mesh occurrences / contains / is_shaded / is_pointfree decided by "
+                  "region geometry; composed-occurrence soundness on texts built to contain Q; constructed witnesses for every unshaded induced cell",
+        text="Every mesh pattern of length <=2 with every index subset, ~2000 (quick) sparse random patterns of length 3-5 with all subsets, "
+             "constructed (weakened sub-pattern) and random pairs; 3*10^5 composed occurrences and 1.8*10^5 witnesses per quick run. Exploration only.",
+        note="trusted: vf/oracle/mesh.py region semantics; texts of length <= 8; K5 (shaded empty pattern) classified by mechanism",
+        ref="DESIGN.md §4 C06",
+    ),
+    "C09": dict(
+        technique="runtime monitoring: generator proxies / recorders on generators, rank, unrank, standardisation, notations and mesh rank/unrank, "
+                  "decided by itertools order and definitional ranking; memoisation history forcing LRU eviction",
+        text="Exhaustive S_0..S_7 (S_8 thorough) for rank/unrank/notations, every first(c) for c<160 and around level boundaries, every mesh "
+             "shading of length <=2, random ranks up to length 20, heterogeneous standardisation inputs, 12000-key eviction history. Exploration only.",
+        note="from_string/str round trip only for length <= 10, from_integer only where an integer can spell the permutation",
+        ref="DESIGN.md §4 C09",
+    ),
+    "C10": dict(
+        technique="runtime contracts (icontract postconditions: result is a bijection of the documented length) on the real methods + recorders "
+                  "decided by point-set constructions; algebraic laws checked on the observed results",
+        text="All of S_0..S_5 (S_6 thorough) with every index/value/shift argument, all ordered pairs of S_0..S_4 for sums/composition, random "
+             "inflations with empty/None components, random longer permutations. Exploration only.",
+        note="trusted: vf/oracle/structure.py, icontract 2.7.3 (installed offline into /verif/.deps by setup.sh)",
+        ref="DESIGN.md §4 C10",
+    ),
+    "C11": dict(
+        technique="runtime monitoring: recorders on ~75 statistic/listing methods decided by definitional oracles; the named statistics matched by "
+                  "NAME; distribution and bijection tools decided by re-evaluating their defining identity on the supplied data",
+        text="Exhaustive S_0..S_6 (S_7 thorough), random longer permutations for the cheap statistics, 30 classes for distributions, 200 "
+             "bijections (structured, random, partial, empty), equidistribution on class pairs. Known findings K1 (LIS is longest run) and K2 "
+             "(layers) are recognised by buggy-model replay only. Exploration only.",
+        note="count_bounces / count_column_sum_primes: transcription oracle only; statistics 28-31 in their implemented reading (DESIGN §3)",
+        ref="DESIGN.md §4 C11",
+    ),
+    "C12": dict(
+        technique="runtime monitoring: recorders on sorting operators, sortable predicates, pass counts, Simion-Schmidt and the family predicates, "
+                  "decided by device simulators, pattern characterisations, index-inequality definitions and Greene's theorem",
+        text="Exhaustive S_0..S_7 (S_8 thorough) + random longer permutations; Simion-Schmidt checked as a bijection level by level (both "
+             "directions) with domain rejection. Exploration only.",
+        note="trusted: vf/oracle/sorting.py; conventions for n <= 2 from the docstrings",
+        ref="DESIGN.md §4 C12",
+    ),
 }
 
 NOT_YET = {}
